@@ -18,7 +18,7 @@ func idCounterOps(c *core.Ctx) []an.AtomicOp {
 	var out []an.AtomicOp
 	for _, op := range an.AtomicOps(c.AllFuncs) {
 		fa, ok := op.Call.Common().Args[0].(*ssa.FieldAddr)
-		if ok && an.IsNamed(fa.X.Type(), workersPkg, "PoolManager") {
+		if ok && nestedIn(c, fa.X.Type(), workersPkg, "PoolManager") {
 			out = append(out, op)
 		}
 	}
@@ -115,13 +115,43 @@ func c03(c *core.Ctx, r *core.Report) {
 			cond := l.Cond
 			bo, ok := an.Strip(cond).(*ssa.BinOp)
 			if !ok {
+				// a bool field computed once from the limit (`limited: max > 0`): the field stands for that comparison when
+				// it is the field's only store in the module and the limit field is set, there, from the same value
+				if fa, isFA := an.Strip(cond).(*ssa.FieldAddr); isFA && nestedIn(c, fa.X.Type(), workersPkg, "PoolManager") {
+					if src, isBin := singleSource(c, fa).(*ssa.BinOp); isBin {
+						lim, zero := src.X, src.Y
+						op := src.Op
+						if k, isK := lim.(*ssa.Const); isK && k.Value != nil {
+							lim, zero = zero, lim
+							op = map[token.Token]token.Token{token.GTR: token.LSS, token.LSS: token.GTR, token.GEQ: token.LEQ, token.LEQ: token.GEQ, token.EQL: token.EQL, token.NEQ: token.NEQ}[op]
+						}
+						sameAsLimit := false
+						an.Instrs(src.Parent(), func(in ssa.Instruction) {
+							if st, isSt := in.(*ssa.Store); isSt {
+								if f := an.FieldOfAddr(st.Addr); f != nil && !an.IsNamed(f.Type(), "sync/atomic", "Uint64") {
+									if b, isB := f.Type().(*types.Basic); isB && b.Kind() == types.Uint64 && an.Strip(st.Val) == an.Strip(lim) {
+										sameAsLimit = true
+									}
+								}
+							}
+						})
+						if k, isK := zero.(*ssa.Const); isK && k.Value != nil && sameAsLimit {
+							switch {
+							case k.Uint64() == 0 && (op == token.GTR || op == token.NEQ), k.Uint64() == 1 && op == token.GEQ:
+								return sem{"M", false}, ""
+							case k.Uint64() == 0 && (op == token.EQL || op == token.LEQ), k.Uint64() == 1 && op == token.LSS:
+								return sem{"M", true}, ""
+							}
+						}
+					}
+				}
 				return sem{}, "condition " + an.D().Of(cond) + " is not a comparison"
 			}
 			x, y := an.Strip(l.T(bo.X)), an.Strip(l.T(bo.Y))
 			op := bo.Op
 			isMax := func(v ssa.Value) bool {
 				f, owner := an.TerminalField(v)
-				return f != nil && an.IsNamed(owner, workersPkg, "PoolManager") && !an.IsNamed(f.Type(), "sync/atomic", "Uint64")
+				return f != nil && nestedIn(c, owner, workersPkg, "PoolManager") && !an.IsNamed(f.Type(), "sync/atomic", "Uint64")
 			}
 			isZero := func(v ssa.Value) bool { k, ok := v.(*ssa.Const); return ok && k.Value != nil && k.Uint64() == 0 }
 			isOne := func(v ssa.Value) bool { k, ok := v.(*ssa.Const); return ok && k.Value != nil && k.Uint64() == 1 }
